@@ -302,6 +302,28 @@ def callerstate_rule(ctx, rep, ftab):
         for fn in roots:
             is_ctl = fn.name.startswith("verif_control::")
             setb = [b for c, b, rk, ev in fn.calls() if strip_targs(c.get("fn") or "") == ent["setter"]]
+            helper_set = set()
+            if not setb:
+                # the installation of the version moved into a helper of the same class / file: the call of that
+                # helper is the point from which the version is set, provided the helper itself does not read
+                # the version before it sets it
+                for c, b, rk, ev in fn.calls():
+                    for t in F.targets(c):
+                        same = (t.cls and fn.cls and strip_targs(t.cls) == strip_targs(fn.cls)) or t.is_lambda or \
+                               "(anonymous namespace)" in t.name
+                        if not same:
+                            continue
+                        hs = [hb for hc, hb, hrk, hev in t.calls() if strip_targs(hc.get("fn") or "") == ent["setter"]]
+                        if not hs:
+                            continue
+                        early = [hc for hc, hb, hrk, hev in t.calls()
+                                 if (strip_targs(hc.get("fn") or "") == ent["getter"] or
+                                     any(x.key in can for x in F.targets(hc))) and
+                                 not any(t.block_dominates(sb, hb) and sb != hb for sb in hs) and
+                                 strip_targs(hc.get("fn") or "") != ent["setter"] and hb not in hs]
+                        if not early:
+                            setb.append(b)
+                            helper_set.add(strip_targs(c.get("fn") or ""))
             if not setb:
                 rep.add(Obligation("CALLERSTATE", fn.base, "installs the header's version", fn.loc, VIOLATION,
                                    control=is_ctl, detail="no call of %s" % ent["setter"]))
@@ -314,7 +336,7 @@ def callerstate_rule(ctx, rep, ftab):
             for b, cs in calls_by_block.items():
                 for c in sorted(cs, key=lambda x: x.get("i", 0)):
                     base = strip_targs(c.get("fn") or "")
-                    if base == ent["setter"]:
+                    if base == ent["setter"] or base in helper_set:
                         break           # later calls in this block run after the setter
                     if any(fn.block_dominates(sb, b) and sb != b for sb in setb):
                         continue
